@@ -347,6 +347,12 @@ def r8(ctx):
             ctx.require_guards(bd, c.idx, [("pop_response() is Response", g_is(popped, "Response"))], "plumbing:%s:popped-arm" % w, "response validation")
 
 
+def r9(ctx):
+    """'IIN2 rejections ... neither complete the request successfully': the acceptance tests of C15.R1/R2 rest on
+    Iin::has_bad_request_error(); its bit getters are rule C13.R1 (shared code)."""
+    import c13
+    c13.r1(ctx)
+
 RULES = [
     ("C15.R1", "T2", "non-READ acceptance: every conjunct dominates Ok(Some(response))", r1),
     ("C15.R2", "T2", "READ acceptance: correlation, FIR/FIN/CON shape, IIN2, parsed objects", r2),
@@ -356,4 +362,5 @@ RULES = [
     ("C15.R6", "T8/T3", "multi-fragment reads: next seq, is_first; extraction bracket", r6),
     ("C15.R7", "T4", "malformed responses fail the task", r7),
     ("C15.R8", "T8", "source / destination / response plumbing between the transport reader and the validators", r8),
+    ("C15.R9", "T11/T4", "IIN2 rejections are recognised (bit positions and getters, shared with C13.R1)", r9),
 ]
